@@ -102,6 +102,8 @@ func (e *Engine) ownership(v ssa.Value, fn *ssa.Function, seen map[ssa.Value]boo
 			return "fresh", ""
 		case *ssa.IndexAddr:
 			return e.ownership(a.X, fn, seen)
+		case *ssa.Global:
+			return "alias", "the package-level variable " + a.Name() + " (one object shared by every result)"
 		}
 		return "alias", "a value loaded through a pointer of the argument"
 	case *ssa.Field:
@@ -378,6 +380,27 @@ func c14R1(e *Engine) {
 				sites = append(sites, site{"value stored into a result map", in, k, why})
 			}
 		})
+		// the result itself, when it is a pointer (or an interface holding one): a shared instance handed out to every
+		// caller is memory that one caller's change shows to all the others
+		if res := fn.Signature.Results(); res.Len() >= 1 {
+			rt := res.At(0).Type().Underlying()
+			_, isPtr := rt.(*types.Pointer)
+			_, isIface := rt.(*types.Interface)
+			if isPtr || isIface {
+				for _, r := range returnsOf(fn) {
+					rv := retVals(r)[0]
+					if isNilConst(rv) {
+						continue
+					}
+					if u, ok := strip(rv).(*ssa.UnOp); ok {
+						if _, isG := u.X.(*ssa.Global); isG {
+							_, why := e.ownership(rv, fn, map[ssa.Value]bool{})
+							sites = append(sites, site{"result", r, "alias", why})
+						}
+					}
+				}
+			}
+		}
 		for _, s := range sites {
 			construct := e.fname(fn) + ":" + s.field
 			if s.kind == "fresh" {
